@@ -54,11 +54,25 @@ func ruleR5_5(w *World, r *Report) {
 	}
 	n := 0
 	for _, fn := range w.Fns {
-		if w.PkgName(fn) != "solver" || storers[fn] {
+		if w.PkgName(fn) != "solver" {
 			continue
 		}
-		// store events in fn: direct, or a call of a blocker helper
-		var events []ssa.CallInstruction
+		// store events in fn: the store itself (the storing step written out in place), a call of a storer, or a call
+		// of a blocker helper
+		var events []ssa.Instruction
+		for _, gs := range growthSites(fn) {
+			if gs.Field != "solver.watcherList.origClauses" {
+				continue
+			}
+			if ac, isC := gs.Store.Val.(*ssa.Call); isC {
+				if mk, ok := appendedElem(ac).(*ssa.Call); ok && w.staticCalleeIs(mk, npc) {
+					events = append(events, gs.Store)
+				}
+			}
+		}
+		if storers[fn] && len(events) == 0 {
+			continue
+		}
 		for _, ci := range callsIn(fn) {
 			if isStoreEvent(fn, ci) {
 				events = append(events, ci)
@@ -90,7 +104,7 @@ func ruleR5_5(w *World, r *Report) {
 				continue
 			}
 			// same arm: some event and the continuation are ordered by dominance one way or the other
-			var related []ssa.CallInstruction
+			var related []ssa.Instruction
 			for _, e := range events {
 				if instrDominates(e, c2) || instrDominates(c2, e) {
 					related = append(related, e)
